@@ -57,8 +57,8 @@ def check(reg, tier):
     reg.assume("weighted Cauchy-Schwarz (sum c f)^2 <= (sum c)(sum c f^2) for c >= 0 is the Lean lemma "
                "Sas.weighted_cauchy_schwarz (lemmas/Sas.lean, checked on every run); its instantiation at the model's "
                "nodes and at the dispersity mesh is a paper step")
-    reg.assume("quadrature weights and Jacobian factors are non-negative on the node range (tables checked "
-               "numerically); SUM c measured as lim q->0 F1^2/F2 on the compiled model")
+    reg.assume("node weights: SUM_n c_n = 1 and c_n >= 0 are evaluated in float64 over all nodes of the tables in the "
+               "generated source (machine arithmetic treated as mathematical, tolerance 1e-6)")
     reg.assume("equality as q -> 0 and positivity/finiteness of radii and volumes are checked only by the "
                "numeric replay grid (limits and floating point are outside the contracts)")
 
@@ -102,9 +102,21 @@ def _structure(reg, name):
     fn = me.tu.functions["Fq"]
     reg.function_under_contract("generated[%s]:Fq" % name, "sasmodels/models/%s.c" % name,
                                 fn["loc"].get("presumedLine", 0), 0, me.tu.func_text(fn))
+    # inner quadratures in model-local helpers (barbell's _bell_kernel, superball's oriented_superball, ...): Fq is
+    # checked against the helper's contract "the result is a function of the arguments" (frame checked on the AST),
+    # which is all the Cauchy-Schwarz structure needs from it
+    from contracts.c12 import pure_loop_helpers
+    from contracts.modelfn import lib_functions
+    helpers = pure_loop_helpers(me.tu, "Fq", lib_functions(me.tu))
+    me.extra_uninterpreted = set(helpers)
+    for f in helpers:
+        reg.assume("models/%s: helper %s (inner quadrature) enters Fq through its contract 'the result is a function of "
+                   "the arguments'; frame checked on the AST (reads only parameters, locals, const tables), body not "
+                   "interpreted" % (name, f))
     F1, F2, defs = me.run_1d()
     nf1 = sigma.normal_form(F1, defs)
     nf2 = sigma.normal_form(F2, defs)
+    chain_defs = nf1[0][0] if nf1 else []
 
     def key(chain):
         return tuple(d.index.sexpr() for d in chain)
@@ -133,6 +145,31 @@ def _structure(reg, name):
     pairs = trig_pairs([s1, s2, s1p, s2p])
     reg.prove(oid + ".common_node_weight", [], s1 * s1 * s2p == s1p * s1p * s2, function=where,
               engine="cvc", poly=pairs, nl=True, replay=rp, timeout_ms=60000)
+    # node weights c_n = s1^2 / s2 (independent of q and the parameters by the identity above): SUM c_n = 1 and
+    # c_n >= 0 over every node of the quadrature tables in the generated source - with them the Lean lemma gives
+    # F1^2 <= F2, with equality where the summand is constant over the nodes (q -> 0)
+    from contracts.c12 import node_weight_sum, _NoEval
+    o_sum, o_pos = oid + ".node_weights_sum_to_one", oid + ".node_weights_are_non_negative"
+    try:
+        total, winfo = node_weight_sum(me, s1 * s1, s2, chain_defs)
+    except _NoEval:
+        total = None
+        reg.undecided(o_sum, "the node weights could not be evaluated over the tables", function=where, engine="cvc")
+    if total is not None:
+        backend = "ground evaluation over the quadrature tables (float64)"
+        for o_, ok, what in ((o_sum, abs(total - 1.0) <= 1e-6, "SUM_n c_n = %.15g" % total),
+                             (o_pos, winfo["min_weight"] >= -1e-12, "min_n c_n = %.3g" % winfo["min_weight"])):
+            if ok:
+                reg.passed(o_, function=where, engine="cvc", backend=backend,
+                           sample={"obligation": o_, "value": what, "nodes": winfo["nodes"]})
+                continue
+            rep_, info_ = replay_amplitudes(name)
+            if rep_:
+                reg.fail(o_, {"node_weights": what, "nodes": winfo["nodes"], "replay": info_}, function=where,
+                         engine="cvc")
+            else:
+                reg.undecided(o_, "%s over %s nodes, but the compiled model keeps F1^2 <= F2 on the replay grid (%s)"
+                              % (what, winfo["nodes"], info_.get("summary")), function=where, engine="cvc")
     # measured sum of node weights
     rep, info = replay_amplitudes(name)
     S = info.get("sum_of_node_weights")
